@@ -123,6 +123,22 @@ Proof.
   - apply stay_rel_same; reflexivity.
 Qed.
 
+Lemma stay_rel_ctr : forall i s mi r r' p,
+  nth_error (rts s) mi = Some r -> cur r' = cur r -> lim r' = lim r ->
+  stay_rel i s (set_pos (set_rt s mi r') p).
+Proof.
+  intros i s mi r r' p Hr Hc Hl. eapply stay_rel_trans; [eapply stay_rel_set_rt_keep; eauto|].
+  apply stay_rel_same; reflexivity.
+Qed.
+
+Lemma stay_rel_czero : forall i s mi r r' p,
+  nth_error (rts s) mi = Some r -> cur r' = cur r -> lim r' = lim r ->
+  stay_rel i s (add_log (set_pos (set_rt s mi r') p) (LOG_CZERO, N.of_nat mi, 0)).
+Proof.
+  intros i s mi r r' p Hr Hc Hl. eapply stay_rel_trans; [eapply stay_rel_ctr; eauto|].
+  apply stay_rel_log; intro Hx; vm_compute in Hx; discriminate Hx.
+Qed.
+
 Ltac st_side := let Hc := fresh in (intro Hc; vm_compute in Hc; discriminate Hc).
 
 Ltac stay_prims i :=
@@ -133,7 +149,9 @@ Ltac stay_prims i :=
         | solve [intros; eapply stay_rel_change; eassumption]
         | solve [intros; eapply stay_rel_set_rt_keep; eassumption]
         | solve [intros; eapply stay_rel_dec; eassumption]
-        | solve [intros; apply stay_rel_sigset] ].
+        | solve [intros; apply stay_rel_sigset]
+        | solve [intros; eapply stay_rel_ctr; eassumption]
+        | solve [intros; eapply stay_rel_czero; eassumption] ].
 
 Lemma transition_stay : forall c tp i fuel s mi ev s' b,
   transition fuel c tp s mi ev = Ok (s', b) -> stay_rel i s s'.
